@@ -886,3 +886,39 @@ Proof.
     rewrite (proj2 (N.ltb_ge _ _)) by (subst d; lia). reflexivity.
   - unfold toff. go. all: try lia'. all: split; reflexivity.
 Qed.
+
+(* Every kind of authenticated arrival deletes the new-handshake timer: a
+   handshake initiation of the peer (in any state), and — with nothing staged,
+   so that no data is sent in the same step — a transport message (data or
+   keepalive) and the response to the pending initiation. *)
+Theorem initiation_cancels_new_handshake : forall s t j,
+  active s = true -> pending (tm_newhs (fst (step s (mkev t IInit j)))) = false.
+Proof.
+  intros s t j Ha. destruct s as [a tr tk tn tz tp att na slm lsh p q kc kn h].
+  cbn [active] in Ha. subst a. unfold recvInitiation || idtac.
+  unfold step, mkev. cbn [e_t e_in e_jr e_jn step_in fst snd]. unfold recvInitiation. go.
+  all: reflexivity.
+Qed.
+
+Theorem transport_cancels_new_handshake : forall s t j d k,
+  active s = true -> staged s = [] -> kp_next s = None -> kp_cur s = Some k ->
+  pending (tm_newhs (fst (step s (mkev t (IRecv d) j)))) = false.
+Proof.
+  intros s t j d k Ha Hq Hn Hc. destruct s as [a tr tk tn tz tp att na slm lsh p q kc kn h].
+  cbn [active staged kp_next kp_cur] in *. subst a q kn kc.
+  unfold step, mkev. cbn [e_t e_in e_jr e_jn step_in fst snd]. unfold recvTransport.
+  destruct d; destruct slm; go.
+  all: try reflexivity.
+  all: repeat (match goal with |- context [if ?b then _ else _] => destruct b end; go); try reflexivity.
+Qed.
+
+Theorem response_cancels_new_handshake : forall s t j,
+  active s = true -> staged s = [] -> hs s = hsInitiationCreated ->
+  pending (tm_newhs (fst (step s (mkev t IResp j)))) = false.
+Proof.
+  intros s t j Ha Hq Hh. destruct s as [a tr tk tn tz tp att na slm lsh p q kc kn h].
+  cbn [active staged hs] in *. subst a q h.
+  unfold step, mkev. cbn [e_t e_in e_jr e_jn step_in fst snd]. unfold recvResponse. go.
+  all: try reflexivity.
+  all: repeat (match goal with |- context [if ?b then _ else _] => destruct b end; go); try reflexivity.
+Qed.
